@@ -513,11 +513,45 @@ func (g *FuncGen) inRange(idx, n string) string {
 }
 
 func (g *FuncGen) add64(a, b string) string {
+	// off + (x - off) = x (absolute-index quantifier variables, option absindex)
 	if g.c.mathInts {
+		if pre := "(- "; strings.HasPrefix(b, pre) && strings.HasSuffix(b, " "+a+")") {
+			if x := b[len(pre) : len(b)-len(a)-2]; balanced(x) {
+				return x
+			}
+		}
 		return fmt.Sprintf("(+ %s %s)", a, b)
+	}
+	if pre := "(bvsub "; strings.HasPrefix(b, pre) && strings.HasSuffix(b, " "+a+")") {
+		if x := b[len(pre) : len(b)-len(a)-2]; balanced(x) {
+			return x
+		}
 	}
 	return fmt.Sprintf("(bvadd %s %s)", a, b)
 }
+// balanced: s is one complete s-expression (an atom or a parenthesised term).
+func balanced(s string) bool {
+	if s == "" {
+		return false
+	}
+	if s[0] != '(' {
+		return !strings.ContainsAny(s, " ()")
+	}
+	depth := 0
+	for i, ch := range s {
+		switch ch {
+		case '(':
+			depth++
+		case ')':
+			depth--
+			if depth == 0 && i != len(s)-1 {
+				return false
+			}
+		}
+	}
+	return depth == 0
+}
+
 func (g *FuncGen) sub64(a, b string) string {
 	if g.c.mathInts {
 		return fmt.Sprintf("(- %s %s)", a, b)
